@@ -1,6 +1,7 @@
 import CpModel.Prim
 import CpProofs.Num
 import CpProofs.Enum
+import CpProofs.Timestamp
 import CpSpec.Wire
 /-
   C11 — integer, flag, mpint and timestamp primitives are exact and never truncate.
@@ -52,50 +53,133 @@ theorem num_short (bo : ByteOrder) (k : Nat) (rest : Bytes) (h : rest.length < k
     parseNum bo k rest = .error (.notEnough ((k - rest.length : Nat) : Int)) := by
   unfold parseNum; simp [h]
 
-/-- Timestamps: every instant of the 32-bit range (1970 … 2106) and the "forever" sentinel
-round-trip in seconds, in 4- and 8-byte fields, for every byte order; the sentinel is all-ones of
-the field's own width.  (No zone parameter exists in the model: the repaired code computes the
-epoch value from UTC calendar fields.) -/
+/-- Timestamps in seconds: every instant up to 9999-12-31T23:59:59Z that fits the field and is not its
+all-ones value, and the "forever" sentinel, round-trip in 4- and 8-byte fields, for every byte order
+and whatever follows; the sentinel is all-ones of the field's own width.  Nothing is cut to 32 bits
+(repaired: an 8-byte field used to come back modulo 2^32).  (No zone parameter exists in the model:
+the repaired code computes the epoch value from UTC calendar fields.) -/
 theorem timestamp_roundtrip_seconds (bo : ByteOrder) (k : Nat) (t : Option Nat) (s : Bytes)
-    (hk : k = 4 ∨ k = 8) (ht : ∀ v, t = some v → v < 2 ^ 32 - 1) :
+    (hk : k = 4 ∨ k = 8) (ht : ∀ v, t = some v → v ≤ maxEpochSeconds ∧ v < 256 ^ k - 1) :
     ∃ b, composeTimestamp bo k t = .ok b ∧ b.length = k ∧
       parseTimestamp bo false k (b ++ s) = .ok (t, k) := by
   have hvs : validSize k = true := by rcases hk with h | h <;> subst h <;> rfl
-  have hpow : (2 : Nat) ^ 32 ≤ 256 ^ k := by rcases hk with h | h <;> subst h <;> decide
   cases t with
   | none =>
     have hpos : 0 < 256 ^ k := Nat.pow_pos (by decide)
-    have hlt : 256 ^ k - 1 < 256 ^ k := by omega
-    refine ⟨encNat bo k (256 ^ k - 1), composeNum_ok hvs hlt, encNat_length _ _ _, ?_⟩
-    simp [parseTimestamp, parseNum_enc hvs hlt, bind, Except.bind, pure, Except.pure]
+    exact ⟨encNat bo k (256 ^ k - 1), composeNum_ok hvs (by omega), encNat_length _ _ _,
+      parseTimestamp_enc_sentinel hvs s⟩
   | some v =>
-    have hv := ht v rfl
-    have hlt : v < 256 ^ k := by omega
-    refine ⟨encNat bo k v, composeNum_ok hvs hlt, encNat_length _ _ _, ?_⟩
-    have hne : ¬ (v = 256 ^ k - 1) := by omega
-    have hmod : v % 2 ^ 32 = v := Nat.mod_eq_of_lt (by omega)
-    simp [parseTimestamp, parseNum_enc hvs hlt, bind, Except.bind, pure, Except.pure, hne, hmod]
+    obtain ⟨hle, hv⟩ := ht v rfl
+    exact ⟨encNat bo k v, composeNum_ok hvs (by omega), encNat_length _ _ _,
+      parseTimestamp_enc hvs hv (by simpa [tsSeconds] using hle) s⟩
 
-/-- Millisecond timestamps (8-byte field, as used by signed certificate timestamps). -/
+/-- In an 8-byte field the range of `datetime` is the only condition: every second count up to
+`maxEpochSeconds` fits and differs from the sentinel. -/
+theorem timestamp_roundtrip_seconds8 (bo : ByteOrder) (t : Option Nat) (s : Bytes)
+    (ht : ∀ v, t = some v → v ≤ maxEpochSeconds) :
+    ∃ b, composeTimestamp bo 8 t = .ok b ∧ b.length = 8 ∧
+      parseTimestamp bo false 8 (b ++ s) = .ok (t, 8) :=
+  timestamp_roundtrip_seconds bo 8 t s (.inr rfl) fun v hv =>
+    ⟨ht v hv, tsSeconds_le_fits8 (ms := false) (by simpa [tsSeconds] using ht v hv)⟩
+
+/-- In a 4-byte field every value below the sentinel is an instant (1970 … 2106): nothing to exclude. -/
+theorem timestamp_roundtrip_seconds4 (bo : ByteOrder) (t : Option Nat) (s : Bytes)
+    (ht : ∀ v, t = some v → v < 2 ^ 32 - 1) :
+    ∃ b, composeTimestamp bo 4 t = .ok b ∧ b.length = 4 ∧
+      parseTimestamp bo false 4 (b ++ s) = .ok (t, 4) :=
+  timestamp_roundtrip_seconds bo 4 t s (.inl rfl) fun v hv => by
+    have := ht v hv
+    unfold maxEpochSeconds
+    omega
+
+/-- Millisecond timestamps (8-byte field, as used by signed certificate timestamps): every instant
+whose whole seconds are at most `maxEpochSeconds` — that is, up to 9999-12-31T23:59:59.999Z — and the
+sentinel round-trip exactly, milliseconds included. -/
 theorem timestamp_roundtrip_millis (bo : ByteOrder) (t : Option Nat) (s : Bytes)
-    (ht : ∀ v, t = some v → v < 2 ^ 32 * 1000) :
+    (ht : ∀ v, t = some v → v / 1000 ≤ maxEpochSeconds) :
     ∃ b, composeTimestamp bo 8 t = .ok b ∧ b.length = 8 ∧
       parseTimestamp bo true 8 (b ++ s) = .ok (t, 8) := by
   have hvs : validSize 8 = true := rfl
   cases t with
   | none =>
-    have hlt : 256 ^ 8 - 1 < 256 ^ 8 := by decide
-    refine ⟨encNat bo 8 (256 ^ 8 - 1), composeNum_ok hvs hlt, encNat_length _ _ _, ?_⟩
-    simp [parseTimestamp, parseNum_enc hvs hlt, bind, Except.bind, pure, Except.pure]
+    exact ⟨encNat bo 8 (256 ^ 8 - 1), composeNum_ok hvs (by decide), encNat_length _ _ _,
+      parseTimestamp_enc_sentinel hvs s⟩
   | some v =>
-    have hv := ht v rfl
-    have hlt : v < 256 ^ 8 := by omega
-    refine ⟨encNat bo 8 v, composeNum_ok hvs hlt, encNat_length _ _ _, ?_⟩
-    have hne : ¬ (v = 256 ^ 8 - 1) := by omega
-    have hmod : v / 1000 % 2 ^ 32 * 1000 + v % 1000 = v := by
-      have : v / 1000 < 2 ^ 32 := by omega
-      rw [Nat.mod_eq_of_lt this]; omega
-    simp [parseTimestamp, parseNum_enc hvs hlt, bind, Except.bind, pure, Except.pure, hne, hmod]
+    have hle : tsSeconds true v ≤ maxEpochSeconds := by simpa [tsSeconds] using ht v rfl
+    have hv := tsSeconds_le_fits8 hle
+    exact ⟨encNat bo 8 v, composeNum_ok hvs (by omega), encNat_length _ _ _, parseTimestamp_enc hvs hv hle s⟩
+
+/-- An instant later than 9999-12-31T23:59:59(.999)Z is not a `datetime`: a field that holds such a
+value (and not the sentinel) is rejected with an invalid value — in either unit, for every width and
+byte order, whatever the buffer.  It is never reduced into range. -/
+theorem timestamp_beyond_datetime_rejected (bo : ByteOrder) (ms : Bool) (k : Nat) (rest : Bytes) (v n : Nat)
+    (h : parseNum bo k rest = .ok (v, n)) (hne : v ≠ 256 ^ k - 1)
+    (hgt : maxEpochSeconds < (if ms then v / 1000 else v)) :
+    parseTimestamp bo ms k rest = .error .invalidValue :=
+  parseTimestamp_of_num_beyond h hne hgt
+
+/-- The same on composed bytes: the number composes (it fits the field), the instant does not parse. -/
+theorem timestamp_beyond_datetime_rejected_enc (bo : ByteOrder) (ms : Bool) (k v : Nat) (s : Bytes)
+    (hk : k = 4 ∨ k = 8) (hv : v < 256 ^ k - 1) (hgt : maxEpochSeconds < (if ms then v / 1000 else v)) :
+    composeTimestamp bo k (some v) = .ok (encNat bo k v) ∧
+      parseTimestamp bo ms k (encNat bo k v ++ s) = .error .invalidValue := by
+  have hvs : validSize k = true := by rcases hk with h | h <;> subst h <;> rfl
+  exact ⟨composeNum_ok hvs (by omega), parseTimestamp_enc_beyond hvs hv hgt s⟩
+
+/-- Whatever is parsed consumed exactly the field, lies in `datetime`'s range if it is an instant, and
+re-composes to the bytes that were read (so the parser is injective on what it accepts). -/
+theorem timestamp_parse_exact (bo : ByteOrder) (ms : Bool) (k : Nat) (rest : Bytes) (t : Option Nat) (n : Nat)
+    (h : parseTimestamp bo ms k rest = .ok (t, n)) :
+    n = k ∧ (∀ v, t = some v → (if ms then v / 1000 else v) ≤ maxEpochSeconds) ∧
+      composeTimestamp bo k t = .ok (rest.take k) := by
+  obtain ⟨hn, _, hk, v, hp, ht, hle⟩ := parseTimestamp_ok_inv h
+  obtain ⟨_, _, hv, henc, _⟩ := parseNum_ok_inv hp
+  by_cases hs : v = 256 ^ k - 1
+  · rw [if_pos hs] at ht
+    subst ht
+    refine ⟨hn, fun _ h => (by cases h), ?_⟩
+    show composeNum bo k ((256 ^ k - 1 : Nat) : Int) = _
+    rw [← hs, composeNum_ok hk hv, henc]
+  · rw [if_neg hs] at ht
+    subst ht
+    refine ⟨hn, fun w hw => (by cases hw; exact hle hs), ?_⟩
+    show composeNum bo k (v : Int) = _
+    rw [composeNum_ok hk hv, henc]
+
+/-- The only errors of the timestamp reader: the width check of the number, or the range check. -/
+theorem timestamp_errors (bo : ByteOrder) (ms : Bool) (k : Nat) (rest : Bytes) (e : PErr)
+    (h : parseTimestamp bo ms k rest = .error e) :
+    parseNum bo k rest = .error e ∨ e = .invalidValue := by
+  rcases parseTimestamp_err_inv h with h | ⟨h, _⟩
+  · exact .inl h
+  · exact .inr h
+
+/-! regression: an 8-byte field is not cut to 32 bits -/
+
+/-- 2200-01-01T00:00:00Z (`uint64 7258118400`) used to come back as 2963151104 (2063-11-24). -/
+example : parseTimestamp .network false 8 [0, 0, 0, 1, 0xb0, 0x9e, 0x19, 0x00] = .ok (some 7258118400, 8) := by
+  decide
+example : composeTimestamp .network 8 (some 7258118400) = .ok [0, 0, 0, 1, 0xb0, 0x9e, 0x19, 0x00] := by decide
+/-- `2^32 * 1000 + 7` ms used to come back as 7 ms after the epoch. -/
+example (s : Bytes) : parseTimestamp .network true 8 (encNat .network 8 (2 ^ 32 * 1000 + 7) ++ s)
+    = .ok (some (2 ^ 32 * 1000 + 7), 8) :=
+  parseTimestamp_enc (by rfl) (by decide) (by decide) s
+example : parseTimestamp .network true 8 [0, 0, 0x03, 0xe8, 0, 0, 0, 7] = .ok (some (2 ^ 32 * 1000 + 7), 8) := by
+  decide
+/-- the last second of `datetime` is accepted, the next one is not, the sentinel is "forever" -/
+example : parseTimestamp .network false 8 [0, 0, 0, 0x3a, 0xff, 0xf4, 0x41, 0x7f] = .ok (some maxEpochSeconds, 8) := by
+  decide
+example : parseTimestamp .network false 8 [0, 0, 0, 0x3a, 0xff, 0xf4, 0x41, 0x80] = .error .invalidValue := by
+  decide
+example : parseTimestamp .network true 8 [0, 0, 0xe6, 0x77, 0xd2, 0x1f, 0xdb, 0xff]
+    = .ok (some (maxEpochSeconds * 1000 + 999), 8) := by decide
+example : parseTimestamp .network true 8 [0, 0, 0xe6, 0x77, 0xd2, 0x1f, 0xdc, 0x00] = .error .invalidValue := by
+  decide
+example : parseTimestamp .network false 8 [0x80, 0, 0, 0, 0, 0, 0, 0] = .error .invalidValue := by decide
+example : parseTimestamp .network false 8 [255, 255, 255, 255, 255, 255, 255, 254] = .error .invalidValue := by
+  decide
+example : parseTimestamp .network false 8 [255, 255, 255, 255, 255, 255, 255, 255] = .ok (none, 8) := by decide
+example : parseTimestamp .network false 4 [255, 255, 255, 254] = .ok (some (2 ^ 32 - 2), 4) := by decide
 
 /-! non-vacuity -/
 example : ∃ b, composeNum .little 3 (0x010203 : Nat) = .ok b ∧ b = [3, 2, 1] := ⟨_, rfl, by decide⟩
